@@ -415,6 +415,9 @@ func C05(tier string) {
 		if sp.Base != "empty" {
 			sd-- // a template already carries five requirements
 		}
+		if sp.Base == "nested-excl" && quick {
+			sd = 0 // the template itself is the history of interest; its neighbourhood is explored in thorough
+		}
 		univ.Enumerate(sp.Slots, sd, func(picks []univ.Pick) {
 			if stopped {
 				return
@@ -473,6 +476,9 @@ func C05(tier string) {
 func schedDevFor(sp *univ.Space, quick bool, def int) int {
 	if sp.Base != "empty" {
 		def-- // a template already carries five requirements
+	}
+	if sp.Base == "nested-excl" && quick {
+		return 0
 	}
 	if quick && sp.Name == "PyPI" {
 		if sp.Base != "empty" {
